@@ -1,10 +1,12 @@
 #!/bin/bash
 # re-evaluate every seeded breakage against the checks; writes seeded/<id>/<v>/meta.json and seeded/summary.txt
+# (a seed directory may name further checks to run in a file `also_checks`)
 cd "$(dirname "$0")/.."
 : > seeded/summary.txt
 for d in seeded/C*/[a-z]; do
   p=$(basename $(dirname $d))
   extra=""
   [ "$d" = "seeded/C02/b" ] && extra="C02 C05"
+  [ -f $d/also_checks ] && extra="$p $(cat $d/also_checks)"
   /venv/bin/python harness/seed_eval.py $p $d $extra 2>&1 | tail -1 >> seeded/summary.txt
 done
